@@ -273,3 +273,6 @@ HARNESSES = [
     ),
 ]
 ASSUMPTIONS = ["virtual time; in-memory broker; async actors only"]
+
+from engine.harness import borrowed  # noqa: E402
+HARNESSES.append(borrowed("c14", "H14-mem", "H10-two-consumers"))                # a finishing consumer (a worker that reached its limit) returns only what it holds itself
